@@ -225,3 +225,113 @@ DRIVERS = [
            rule='1..4 sheets (titles needing quotes included), each with 19 cells covering every storage form (n, s, inlineStr, b, e, date-styled number, non-ASCII shared string, formulas with numeric / string / boolean / no cached value, a range formula, a cross-sheet formula, two shared-formula groups - down a column and across a row with a $ reference), defined names for a cell / a range / a cell on a quoted sheet, every proper subset of ignored sheets; cell table, cached values before evaluation, names, evaluation == directly built model',
            bound='4 sheets x 19 cells; all subsets of ignored sheets'),
 ]
+
+
+# ---- seeded random workbooks (thorough tier: many) ------------------------------------------------------------------------------------------
+def cases_random(tier, seed):
+    import random
+    rng = random.Random(seed + 11)
+    n = 10 if tier == 'quick' else 3000
+    for i in range(n):
+        yield dict(mseed=seed * 100000 + i, ignore_mask=rng.randrange(8), cached=rng.random() < 0.5)
+
+
+def oracle_random(c):
+    """a generated model written as raw SpreadsheetML, loaded, compared with the same contents built directly"""
+    import random
+    import xlcalculator
+    from drivers.common import build_model, observe
+    from drivers.gen_models import gen_model
+    m = gen_model(c['mseed'])
+    rng = random.Random(c['mseed'])
+    contents = {a: v for a, v in m['cells'].items() if v != ''}            # (an empty text cell is not a stored value in SpreadsheetML)
+    sheets = m['sheets']
+    ignored = [s for i, s in enumerate(sheets) if (c['ignore_mask'] >> i) & 1 and s != 'Sheet1']
+    # cached results: what a directly built model computes (or none at all)
+    direct_all = build_model(dict(contents), None)
+    ev_all = xlcalculator.Evaluator(direct_all)
+    specs = {s: [] for s in sheets}
+    expected = {}
+    for a, v in contents.items():
+        sh, coord = a.split('!')
+        if isinstance(v, str) and v.startswith('='):
+            cached = None
+            if c['cached']:
+                try:
+                    o = observe(ev_all.evaluate(a))
+                    cached = o[1] if o[0] in ('num', 'text', 'bool') else None
+                except Exception:      # noqa
+                    cached = None
+            specs[sh].append(dict(r=coord, kind='f', f=v[1:], cached=cached))
+            e = ('formula', v, cached)
+        elif isinstance(v, bool):
+            specs[sh].append(dict(r=coord, kind='b', v=v))
+            e = ('const', v)
+        elif isinstance(v, str):
+            specs[sh].append(dict(r=coord, kind=rng.choice(['s', 'inlineStr']), v=v))
+            e = ('const', v)
+        else:
+            specs[sh].append(dict(r=coord, kind='n', v=v))
+            e = ('const', v)
+        if sh not in ignored:
+            expected[a] = e
+    names = {n: t for n, t in m['names'].items()}
+    d = tempfile.mkdtemp(dir=os.path.join(ROOT, 'scratch'))
+    fn = os.path.join(d, 'book.xlsx')
+    try:
+        write_xlsx(fn, [(s, specs[s]) for s in sheets], names)
+        try:
+            model = xlcalculator.ModelCompiler().read_and_parse_archive(fn, ignore_sheets=list(ignored))
+        except Exception as ex:      # noqa
+            return False, 'the workbook loads', f'raise {type(ex).__name__}: {str(ex)[:200]}'
+    finally:
+        try:
+            os.remove(fn)
+            os.rmdir(d)
+        except OSError:
+            pass
+    got = {a: cell for a, cell in model.cells.items() if not (cell.formula is None and cell.value in ('', None))}
+    if sorted(got) != sorted(expected):
+        return False, f'cells {sorted(expected)[:6]}... ({len(expected)})', f'{sorted(set(got) ^ set(expected))[:10]}'
+    ev = xlcalculator.Evaluator(model)
+    for a, e in expected.items():
+        cell = model.cells[a]
+        if e[0] == 'const':
+            if cell.formula is not None or cell.value != e[1] or type(cell.value) is not type(e[1]):
+                return False, f'{a} holds the constant {e[1]!r}', f'{cell.value!r}'
+        else:
+            if cell.formula is None or cell.formula.formula != e[1]:
+                return False, f'{a} holds the formula {e[1]}', cell.formula and cell.formula.formula
+            cached = ev.get_cell_value(a)
+            same = cached == e[2] and (e[2] is None or type(cached) is type(e[2]) or (isinstance(e[2], (int, float)) and not isinstance(e[2], bool) and isinstance(cached, (int, float)) and not isinstance(cached, bool)))
+            if not same:
+                return False, f'{a}: cached result {e[2]!r} available before evaluation', repr(cached)
+    for n, t in names.items():
+        sh = t.replace("'", '').split('!')[0]
+        if sh in ignored:
+            continue
+        target = t.replace('$', '').replace("'", '')
+        if ':' not in t and target not in expected:
+            continue                                   # a name for a hole is not loaded (warning)
+        if n not in model.defined_names:
+            return False, f'defined name {n} bound to {t}', sorted(model.defined_names)
+    # evaluation == a model built directly from the loaded contents (references into ignored sheets read as blank in both)
+    direct = build_model({a: e[1] for a, e in expected.items()}, {n: t for n, t in names.items() if n in model.defined_names} or None)
+    ev2 = xlcalculator.Evaluator(direct)
+    for a in expected:
+        try:
+            v1 = observe(ev.evaluate(a))
+        except Exception as ex:      # noqa
+            v1 = ('raise', type(ex).__name__)
+        try:
+            v2 = observe(ev2.evaluate(a))
+        except Exception as ex:      # noqa
+            v2 = ('raise', type(ex).__name__)
+        if v1 != v2:
+            return False, f'{a} evaluates to {v2} as in the directly built model', v1
+    return True, 'loaded model equals the generated contents', 'ok'
+
+
+DRIVERS.append(Driver('C11/B3.random', cases_random, oracle_random, nchunks=8,
+                      rule='seeded random workbooks (drivers/gen_models.py contents written as raw SpreadsheetML: n / s / inlineStr / b cells, formulas with or without cached results, holes, 1-3 sheets incl. a quoted one, cell and range names, a random set of ignored sheets): cell table, cached values, names, evaluation == directly built model',
+                      bound='10 (quick) / 3000 (thorough) workbooks'))
